@@ -293,7 +293,7 @@ fn write_expr(spanned_expr: &SpannedExpr, scope: Option<&Scope>) -> String {
             // Names assigned inside the block shadow captured values from there on
             let mut block_scope = scope.cloned();
             let mut result = "do {".to_string();
-            for stmt in statements {
+            for (idx, stmt) in statements.iter().enumerate() {
                 // Leading comments
                 for comment in &stmt.leading {
                     result.push_str(&format!("\n  {}", comment));
@@ -301,7 +301,10 @@ fn write_expr(spanned_expr: &SpannedExpr, scope: Option<&Scope>) -> String {
                 // Expression
                 result.push_str(&format!(
                     "\n  {}",
-                    write_expr(&stmt.node, block_scope.as_ref())
+                    crate::formatter::protect_leading_minus(
+                        write_expr(&stmt.node, block_scope.as_ref()),
+                        idx == 0
+                    )
                 ));
                 if let (Expr::Assignment { ident, .. }, Some(block_scope)) =
                     (&stmt.node.node, block_scope.as_mut())
